@@ -3,7 +3,7 @@ import TaskModel.Sched.TreeLemmas
 parent waits for them (`depsWait`, `inCall`); the result a `task:` command continues
 with is the callee's result; an activation gets past its dependency join only if every
 dependency activation has finished successfully. -/
-namespace TaskModel.Sched
+namespace TaskModel.Sched.S2
 
 /-- may the kid in `slot` of an activation in this state still be running? -/
 def mayRun (x : Act) (slot : Nat) : Prop :=
@@ -358,4 +358,4 @@ theorem KInv_sound (P : Program) (F : Flags) (n : Nat) (tr : List Label) (c : Co
     (fun f px b a kind t slot hK hg _ => KInv_kid f px b a kind t slot hK hg)
     (fun c a x ev y eff _ hK hs => KInv_local F c a x ev y eff hK hs) n tr c h a x hx
 
-end TaskModel.Sched
+end TaskModel.Sched.S2
